@@ -223,3 +223,33 @@ M('c12-media-setter-identity-shortcut', 'C12', 'R4', 'falcon/response.py',
             self._media = value
             self._media_rendered = _UNSET
 """)
+
+# ---- wave 5: R6 the form serializer's quoting function escapes '%' unconditionally (s5-c12-3)
+UE = 'falcon/media/urlencoded.py'
+_UE_IMPORT = "from urllib.parse import urlencode\n"
+_UE_CALL = "        return urlencode(media, doseq=True).encode()\n"
+_UE_CLASS = "\n\nclass URLEncodedFormHandler(BaseHandler):"
+# the seed: str names/values go through encode_value_check_escaped ("do not escape twice")
+M2('c12-form-quote-via-check-escaped-helper', 'C12', 'R6', [
+    {'file': UE, 'old': _UE_IMPORT, 'new': "from urllib.parse import quote_plus\n" + _UE_IMPORT + "from falcon.util.uri import encode_value_check_escaped\n"},
+    {'file': UE, 'old': _UE_CLASS, 'new': """
+
+def _quote_field(field, safe='', encoding=None, errors=None):
+    if isinstance(field, str):
+        return encode_value_check_escaped(field)
+
+    return quote_plus(field, safe)
+""" + _UE_CLASS},
+    {'file': UE, 'old': _UE_CALL, 'new': "        return urlencode(media, doseq=True, quote_via=_quote_field).encode()\n"}])
+# variant: the heuristic encoder reached through the public falcon.uri alias, in a lambda
+M2('c12-form-quote-via-lambda-check-escaped', 'C12', 'R6', [
+    {'file': UE, 'old': _UE_IMPORT, 'new': "from falcon import uri as _uri\n" + _UE_IMPORT},
+    {'file': UE, 'old': _UE_CALL,
+     'new': "        return urlencode(media, doseq=True, quote_via=lambda s, *a: _uri.encode_check_escaped(s)).encode()\n"}])
+# variant: '%' exempted from escaping
+M('c12-form-percent-declared-safe', 'C12', 'R6', UE, _UE_CALL, "        return urlencode(media, doseq=True, safe='%').encode()\n")
+# variant: keys are "normalised" with a heuristic encoder before urlencode quotes them
+M2('c12-form-keys-pre-encoded-check-escaped', 'C12', 'R6', [
+    {'file': UE, 'old': _UE_IMPORT, 'new': _UE_IMPORT + "from falcon.util.uri import encode_value_check_escaped\n"},
+    {'file': UE, 'old': _UE_CALL,
+     'new': "        media = [(encode_value_check_escaped(k), v) for k, v in dict(media).items()]\n        return urlencode(media, doseq=True, safe='%').encode()\n"}])
